@@ -159,6 +159,27 @@ def segrecover_design(eng, ti):
 WALIMPL_INVS = ["C03_OpenSucceeds", "C03_Writable", "C01_ViewAllowed", "C01_Recovered", "C13_ExactDir", "C13_UniqueIds", "MemMatchesMeta"]
 
 
+def segops_inductive(eng, ti):
+    """Unbounded design-level result (Apalache, spec/SegOpsInd.tla): well-formedness of the committed segment list and its
+    agreement with the contract's log bounds is an inductive invariant of the metadata transactions of spec/SegOps.tla
+    (the operators WalImpl and WalImplTrace use), for symbolic indexes and ids, segment lists of up to 4. Negative
+    control: an off-by-one in the head truncation's survival test must break inductiveness."""
+    res = {}
+    o0, w0, out0 = apalache("SegOpsInd", ["--cinit=CInit", "--init=FreshInit", "--inv=IndInv", "--length=0"], timeout=300)
+    o1, w1, out1 = apalache("SegOpsInd", ["--cinit=CInit", "--init=IndInit", "--inv=IndInv", "--length=1"], timeout=600)
+    res.update(fresh_open_establishes=o0, inductive_step=o1, wall=round(w0 + w1, 1))
+    if o0 != "NoError" or o1 != "NoError":
+        raise Inconclusive("SegOpsInd (Apalache): the invariant of the metadata transactions is not inductive: %s %s\n%s" % (o0, o1, (out0 if o0 != "NoError" else out1)))
+    if ti == 1:
+        o2, w2, out2 = apalache("SegOpsInd", ["--cinit=CInit", "--init=IndInit", "--inv=IndInv", "--length=1"], timeout=600,
+                                edit={"SegOps.tla": ("IF sg.sealed THEN sg.max >= newMin ELSE last >= newMin",
+                                                     "IF sg.sealed THEN sg.max > newMin ELSE last >= newMin")})
+        res["negative_control_head_off_by_one"] = o2
+        if o2 != "Error":
+            raise Inconclusive("SegOpsInd negative control was not rejected: %s\n%s" % (o2, out2))
+    eng.stats["segops_inductive_apalache"] = res
+
+
 def walimpl_design(eng, ti):
     """Design-level check of the engine at file granularity (spec/WalImpl.tla): crash between any two I/O steps of
     Open / StoreLogs / rotation / DeleteRange, incl. inside recovery; the repaired design must satisfy the C01/C03/C04/C13
@@ -173,6 +194,8 @@ def walimpl_design(eng, ti):
     eng.stats["design_states"] = eng.stats.get("design_states", 0) + r.generated
     eng.stats["design_distinct"] = eng.stats.get("design_distinct", 0) + r.distinct
     eng.stats["walimpl"] = {"consts": consts, "distinct": r.distinct, "generated": r.generated, "wall": round(r.wall, 1)}
+    if ti == 1 or eng.pid in ("C04", "C13"):
+        segops_inductive(eng, ti)
     if ti == 1:
         neg = {}
         for sw, val, expect in (("RotateOnOpen", False, "C03_Writable"), ("CreateBeforeCommit", True, "C03_OpenSucceeds"),
